@@ -7,7 +7,10 @@ import polars as pl
 
 from pandera.api.dataframe.container import DataFrameSchema as _DataFrameSchema
 from pandera.api.polars.types import PolarsCheckObjects
-from pandera.api.polars.utils import get_validation_depth
+from pandera.api.polars.utils import (
+    collect_validated,
+    get_validation_depth,
+)
 from pandera.backends.polars.register import register_polars_backends
 from pandera.config import config_context, get_config_context
 from pandera.dtypes import DataType
@@ -73,7 +76,7 @@ class DataFrameSchema(_DataFrameSchema[PolarsCheckObjects]):
             )
 
         if is_dataframe:
-            output = output.collect()
+            output = collect_validated(self, output, lazy)
 
         return output
 
